@@ -379,3 +379,16 @@ Theorem C01_accession_subparser_roundtrip_partial : forall depth a v post o e ap
              (Ok (upd_fields a (set_accession (a_fields a) v), None), s') /\ rest s' = post /\ stk s' = fr :: k.
 Proof. exact p_accession_roundtrip. Qed.
 Print Assumptions C01_accession_subparser_roundtrip_partial.
+
+(* an extra field (any field the reader has no sub-parser for): its name is
+   the run of capitals that starts the line; for a name shorter than the field
+   depth (12 and more: known finding K12) the field is read back as written *)
+Theorem C01_extra_field_subparser_roundtrip_partial : forall depth a name l0 ls post o e ap fr k,
+  name <> [] -> Forall (fun c => is_upper c = true) name -> zlen name < depth ->
+  no_eol l0 -> Forall no_eol ls -> is_prefix (repeat_byte 32 depth) post = false ->
+  exists s', p_extra depth a
+               (mkst (name ++ repeat_byte 32 (depth - zlen name) ++
+                      (add_prefix (l0 ++ joined 10 ls) (repeat_byte 32 depth) ++ [10]) ++ post) o e ap (fr :: k)) =
+             (Ok (upd_fields a (add_extra (a_fields a) name (l0 ++ joined 10 ls)), None), s') /\ rest s' = post /\ stk s' = fr :: k.
+Proof. exact p_extra_roundtrip. Qed.
+Print Assumptions C01_extra_field_subparser_roundtrip_partial.
